@@ -65,6 +65,44 @@ theorem consistent_accepted (g : FGraph)
   simp only [List.nil_append] at h1 h2
   exact hc k f1 f2 ((collectG_mem _ g).mp h1) ((collectG_mem _ g).mp h2)
 
+/-- **Why the comparison has to be on the WHOLE rendered definition** (the static types of nested graphs
+    included). Let `q` be any coarser view of a definition (e.g. "the proto with the types of the nested
+    graphs' inputs / outputs / value_infos cleared"). If comparing through `q` accepts a program that the
+    exact comparison rejects, then two call sites under one key have *different* definitions that `q`
+    cannot tell apart: one of them is silently given the other's body — the merge the property forbids
+    (with `definition_is_own_body`: under the exact comparison every call site finds its own). -/
+theorem coarse_comparison_merges {γ : Type} [DecidableEq γ] (q : Nat → γ) (g : FGraph)
+    (tblq : List (Key × γ))
+    (hq : table [] ((collectG g).map (fun e => (e.1, q e.2))) = some tblq)
+    (hex : toModel g = none) :
+    ∃ k f1 f2, (k, f1) ∈ usedG g ∧ (k, f2) ∈ usedG g ∧ f1 ≠ f2 ∧ q f1 = q f2 := by
+  apply Classical.byContradiction
+  intro hno
+  have hc : ∀ k f1 f2, (k, f1) ∈ usedG g → (k, f2) ∈ usedG g → f1 = f2 := by
+    intro k f1 f2 h1 h2
+    apply Classical.byContradiction
+    intro hne
+    apply hno
+    refine ⟨k, f1, f2, h1, h2, hne, ?_⟩
+    have m1 : (k, q f1) ∈ (collectG g).map (fun e => (e.1, q e.2)) :=
+      List.mem_map.mpr ⟨(k, f1), (collectG_mem _ g).mpr h1, rfl⟩
+    have m2 : (k, q f2) ∈ (collectG g).map (fun e => (e.1, q e.2)) :=
+      List.mem_map.mpr ⟨(k, f2), (collectG_mem _ g).mpr h2, rfl⟩
+    have a := table_has hq k (q f1) m1
+    have b := table_has hq k (q f2) m2
+    rw [a] at b
+    exact Option.some.inj b
+  have := consistent_accepted g hc
+  rw [hex] at this
+  cases this
+
+/-- non-vacuity: one key, definitions 0 and 1, a view that identifies them: the exact table rejects, the
+    coarse one accepts (and stores the first). -/
+example : toModel (.mk [.call ("d", "f") 0 (.mk []), .call ("d", "f") 1 (.mk [])]) = none ∧
+    table [] ((collectG (.mk [.call ("d", "f") 0 (.mk []), .call ("d", "f") 1 (.mk [])])).map
+      (fun e => (e.1, (fun _ : Nat => ()) e.2))) = some [(("d", "f"), ())] := by
+  decide
+
 /-- **Imports cover the body.** Every opset requirement of a function's body is met by the function's
     opset imports (same domain up to `ai.onnx` = `""`, version at least the required one). -/
 theorem imports_cover_body (bodyReq modelOpsets : List (String × Nat)) (p : String × Nat)
